@@ -25,15 +25,15 @@ def stateful(pid, what, ref):
 
 CHECKS = {
  "C01": stateful("C01", "TLC checks CodeOnce/ReplayRefused/ReplayKillsFamily/FamilyIsolation in every state of the bounded design (plain + hybrid codes, refresh chains, revocations, clock; family C01 broad and shallow, family C01b one code followed through time with short lifetimes), plus FCInv/FCRefines (refinement of FamilyCore.tla, whose invariant Apalache shows inductive). One witness history per distinct state of the bounded model, extended by every refused/query operation of that state (a seeded sample at quick), and seeded deep simulated histories are executed on the real provider + reference store and each step (result class, issued credentials, introspection of every token, store projection) is validated against the spec.", "DESIGN.md 6 C01"),
- "C02": stateful("C02", "Exhaustive TLC check of RedeemGuard/FailedRedeemInert/grant immutability over client x redirect presentation x smuggled parameters x code age; all attempt pairs and seeded longer histories replayed on the real code and validated step by step, incl. the introspection payload of issued tokens.", "DESIGN.md 6 C02"),
- "C03": stateful("C03", "Exhaustive TLC check of PkceGuard/PkceBindingStable over all sequences of redemption attempts for the 8 PKCE configurations; every attempt sequence up to the generation depth is executed on the real code with real verifiers/S256 challenges and validated.", "DESIGN.md 6 C03"),
+ "C02": stateful("C02", "Exhaustive TLC check of RedeemGuard/FailedRedeemInert/grant immutability over client x redirect presentation x smuggled parameters x code age (the clock may jump to the end of the modelled time), under a finite and an unlimited refresh-token lifetime; all attempt pairs and seeded longer histories replayed on the real code and validated step by step, incl. the introspection payload of issued tokens.", "DESIGN.md 6 C02"),
+ "C03": stateful("C03", "Exhaustive TLC check of PkceGuard/PkceBindingStable over all sequences of redemption attempts for the 8 PKCE configurations, incl. challenges the client derived from a verifier with a reserved character (never redeemable); every attempt sequence up to the generation depth is executed on the real code with real verifiers/S256 challenges and validated.", "DESIGN.md 6 C03"),
  "C04": stateful("C04", "TLC checks RefreshOnce/ReuseKillsFamily/FamilyIsolation on grants of four origins (code, hybrid, password, device) with chains and replays of any generation by the owner or a stranger (family C04), and one refresh chain followed through time with short lifetimes (family C04b); FCInv/FCRefines link the design to FamilyCore.tla, whose invariant (one honoured refresh token per grant, killed grants stay dead) Apalache shows inductive for histories of any length (run at thorough). Behaviours replayed on the real code, every token of every generation probed after every step.", "DESIGN.md 6 C04"),
- "C05": stateful("C05", "TLC checks RefreshGuard/RefreshPreservesGrant/RtIssuanceRule over grant x refresh parameters x presenting client x registration changes x refresh-scope configuration; behaviours replayed and validated incl. payload comparison.", "DESIGN.md 6 C05"),
+ "C05": stateful("C05", "TLC checks RefreshGuard/RefreshPreservesGrant/RtIssuanceRule over grant x refresh parameters x presenting client x registration changes (a change stores a new client record, so the snapshot kept with a grant and the current registration differ) x refresh-scope configuration; behaviours replayed and validated incl. payload comparison.", "DESIGN.md 6 C05"),
  "C07": stateful("C07", "TLC checks NothingAfterExpiry/StepExpiryRespected for codes, opaque and JWT access tokens, refresh tokens (finite and unlimited), device/user codes and PAR request URIs with an explicit clock; histories with ticks on both sides of every expiry executed under the synctest clock and validated, advertised expires_in compared. Attached decision tables: TblLifespan (per-client lifetime overrides per grant/token-type pair, unlimited refresh) and the expiry / not-before rows of TblAssertion (JWT assertions).", "DESIGN.md 6 C07"),
  "C08": stateful("C08", "TLC checks RevokeEffective/RevokeOwnerOnly/unknown-inert over every token ever issued x hint x caller (owner, foreign confidential, foreign public, bad secret, unauthenticated; family C08) and over tokens of every age incl. expired ones (family C08b); behaviours replayed on the real code and all tokens probed afterwards.", "DESIGN.md 6 C08"),
- "C09": stateful("C09", "The introspection probe of every token after every step of every history of every stateful check is compared with the spec's verdict and payload; the C09 alphabet adds the introspection endpoint with every caller credential (client secret, bad secret, public client, active / expired / revoked access token as bearer, the inspected token itself, a refresh token as bearer), hint and required-scope list (single and several scopes); for an active answer the reported kind (from the responder), client, subject and scope are compared, for an inactive one that the body is nothing but active=false.", "DESIGN.md 6 C09"),
- "C16": stateful("C16", "TLC checks DeviceGuard/DeviceOnce/DeviceReplayRevokes over start/decide/poll/replay/tick for the reference store and a store following the ErrInvalidatedDeviceCode contract (family C16), and one device code followed through time with every decision incl. a consent application that replaces the session (family C16b); behaviours replayed and validated.", "DESIGN.md 6 C16"),
- "C17": stateful("C17", "TLC checks ParOnce/ParClientBound/ParExpires/ParEnforced; behaviours (push, use by right/wrong client, twice, after expiry, with conflicting query parameters, unknown/foreign-prefix URIs; family C17b follows one request_uri through time) replayed; the parameters of the resulting request are compared with the pushed ones.", "DESIGN.md 6 C17"),
+ "C09": stateful("C09", "The introspection probe of every token after every step of every history of every stateful check is compared with the spec's verdict and payload; the C09 alphabet adds the introspection endpoint with every caller credential (client secret, bad secret, public client, active / expired / revoked access token as bearer, the inspected token itself, a refresh token as bearer), hint and required-scope list (single and several scopes); for an active answer the reported kind (from the responder), client, subject and scope are compared, for an inactive one that the body is nothing but active=false. A token the specification has dead that the probe reports active while the store agrees with the specification is a C09 violation (the endpoint's own verdict).", "DESIGN.md 6 C09"),
+ "C16": stateful("C16", "TLC checks DeviceGuard/DeviceOnce/DeviceReplayRevokes over start/decide/poll/replay/tick, polls with a device code rebuilt from the stored signature, for the reference store and a store following the ErrInvalidatedDeviceCode contract (family C16), and one device code followed through time with every decision incl. a consent application that replaces the session (family C16b); behaviours replayed and validated.", "DESIGN.md 6 C16"),
+ "C17": stateful("C17", "TLC checks ParOnce/ParClientBound/ParExpires/ParEnforced; behaviours (push, use by right/wrong client, twice, after expiry, with conflicting query parameters, unknown/foreign-prefix URIs; family C17b follows one request_uri through time) replayed; the parameters of the resulting request are compared with the pushed ones. Storage failures: MCSteps.tla ScnParFault injects one error at every storage call of a push and of a use (reference and transactional store), followed by a second and third use (invariant ParAtMostOnce); every schedule is forced on the real code and validated step by step.", "DESIGN.md 6 C17"),
 }
 
 STEPS_NOTE = ("Trusted: TLC 1.8 + CommunityModules Json; Go 1.26 testing/synctest; the storage gate of the harness (parks every request "
@@ -79,10 +79,10 @@ def table(pid, what, ref):
         "technique": "TLA+ decision specification enumerated completely by TLC into an input->expected-verdict table; every row executed on the real code (model-based test generation from the specification)",
     }
 
-CHECKS["C11"] = table("C11", "TblRedirect.tla states when a redirect to a requested URI is allowed (string-identical to a registered URI, or http + loopback literal + same host/path/query; absolute; no own fragment) over URI records; TLC enumerates every registered set x every one- (thorough: two-) component near-miss of a registered URI x response type x response mode x kind of request error; every row is rendered to strings and driven through NewAuthorizeRequest / NewAuthorizeResponse / WriteAuthorizeResponse / WriteAuthorizeError, and the Location header or form action is compared (redirected => allowed, target = requested, no code over plain http to a non-local host); the same redirect_uri is pushed to the pushed-authorization endpoint, which may accept it only if it is allowed and not plain http to a non-local host.", "DESIGN.md 6 C11")
+CHECKS["C11"] = table("C11", "TblRedirect.tla states when a redirect to a requested URI is allowed (string-identical to a registered URI, or http + loopback literal + same host/path/query; absolute; no own fragment) over URI records; TLC enumerates every registered set x every one- (thorough: two-) component near-miss of a registered URI x response type x response mode x kind of request error; every row is rendered to strings and driven through NewAuthorizeRequest / NewAuthorizeResponse / WriteAuthorizeResponse / WriteAuthorizeError, and the Location header or form action is compared (redirected => allowed, target = requested, no code over plain http to a non-local host); the same redirect_uri is pushed to the pushed-authorization endpoint, which may accept it only if it is allowed and not plain http to a non-local host. ParRows: the request is pushed with the first registered URI or none and the front-channel request redeeming the request_uri carries a redirect_uri of its own (registered, near-miss, foreign): a redirect goes to the URI fixed at the push.", "DESIGN.md 6 C11")
 CHECKS["C12"] = table("C12", "TblScope.tla transcribes the documented rules of the three scope strategies and two audience strategies; TLC enumerates all pattern/needle pairs over the segment alphabet {a,b,*,empty} up to 3 (thorough 4) segments, all URL pairs of the bounded URL domain, and the confinement table flow x strategy x registration x request for all nine flows; the real strategy functions are called on every row and every flow is driven with every out-of-policy request (accept/refuse, error class, scopes/audience of issued tokens).", "DESIGN.md 6 C12")
 
-CHECKS["C06"] = table("C06", "TblHmac.tla models a credential as <<prefix, key, mac>> with an uninterpreted injective MAC and states which presentations are accepted under which secret/hash configuration (current, rotated at any position, forgotten, shorter than 32 bytes before/after the matching one, equal in the first 32 bytes, other hash function); TLC enumerates credential kind (code, access, refresh, device code) x 17 mutation classes x 13 configurations (incl. rotated secrets only) x finite/unlimited refresh lifetime, and 13 JWT manipulation classes. Every row is concretised n times (seeded bit/byte positions, real tokens minted by the real strategies through the real flows) and presented to Validate and to the consuming endpoint; a refusal must leave the store projection unchanged; all minted values of the run are checked for repeats and for a decoded random part of at least max(32, configured entropy) bytes (configured 0 / 8 / 48).", "DESIGN.md 6 C06")
+CHECKS["C06"] = table("C06", "TblHmac.tla models a credential as <<prefix, key, mac>> with an uninterpreted injective MAC and states which presentations are accepted under which secret/hash configuration (current, rotated at any position, forgotten, shorter than 32 bytes before/after the matching one, equal in the first 32 bytes, other hash function); TLC enumerates credential kind (code, access, refresh, device code) x 17 mutation classes x 13 configurations (incl. rotated secrets only) x finite/unlimited refresh lifetime, and 19 JWT manipulation classes (incl. manipulated protected headers: crit of the wrong type, unknown crit extension, embedded jwk, b64=false) x validator (storage-backed introspection, StatelessJWTValidator) x before/after expiry x required scope covered or not x session type (OpenID Connect session, oauth2.JWTSession). Every row is concretised n times (seeded bit/byte positions, real tokens minted by the real strategies through the real flows) and presented to Validate and to the consuming endpoint; a refusal must leave the store projection unchanged; all minted values of the run are checked for repeats and for a decoded random part of at least max(32, configured entropy) bytes (configured 0 / 8 / 48).", "DESIGN.md 6 C06")
 CHECKS["C10"] = table("C10", "TblClientAuth.tla transcribes client authentication (registration kind/method/public/rotated secrets x transport x secret relation x known id x endpoint -> authentication verdict and endpoint outcome); TLC enumerates all 6192 rows (incl. confidential registrations without any stored secret hash); each is executed with real bcrypt-hashed secrets at the token (client_credentials, password, refresh_token), revocation, PAR and device-authorization endpoints; on a rejected authentication the storage write log must be empty and the presented refresh token still active.", "DESIGN.md 6 C10")
 CHECKS["C13"] = table("C13", "TblAuthz.tla transcribes the authorization-request validation pipeline and response placement (registered response-type sets, response modes, grant types x response_type list with order and duplicates x response_mode x state/nonce length x openid x redirect_uri); the safety clauses of the statement are ASSUMEd of the specification on the whole domain (70200 rows); rows (all at thorough, a seeded 16000 at quick) are driven through NewAuthorizeRequest/NewAuthorizeResponse/Write*, and verdict, issued artefacts, placement (query/fragment/form), 'no token in the query' and state echo are compared.", "DESIGN.md 6 C13")
 
